@@ -4,6 +4,7 @@ import (
 	"fmt"
 	"go/token"
 	"go/types"
+	"regexp"
 	"sort"
 	"strings"
 
@@ -88,7 +89,7 @@ func runC16(r *Run, p *Prog) {
 		if f == bind || root == bind {
 			// Bind's guard prefix may run concurrently with serving (a second bind is refused);
 			// past the guard (`running` seen false under the lock) it belongs to the single serving thread.
-			if !hasFactRe(T.FactsAt(in.Block()), `^EQ\(const:false,param:\w+\.running\)$`) && !strings.Contains(c, "A") {
+			if !hasFactRe(T.FactsAt(in.Block()), `^EQ\(const:false,param:\w+\.`+regexp.QuoteMeta(svcF.Running)+`\)$`) && !strings.Contains(c, "A") {
 				c += "A"
 			}
 		}
